@@ -573,7 +573,7 @@ class World:
             for ev, exc in M.escaped:
                 pass
         for b in bad:
-            self.violations.append((b[0] + ':' + opname, b[1]))
+            self.violations.append((b[0], f'after {opname}: {b[1]}'))
         return bad
 
 
@@ -597,14 +597,15 @@ def _ends(links):
     return out
 
 
-def gen_open(rng, ends):
-    m, h, _ = rng.choice(ends)
-    kind = rng.choice([KIND_LE] * 9 + [KIND_ENH] * 4 + [KIND_CL] * 7)
-    if kind == KIND_CL:
+def gen_open(rng, ends, ltypes):
+    m, h, l = rng.choice(ends)
+    if ltypes[l] == 'cl':
+        kind = KIND_CL
         psm = rng.choice([0x1001] * 6 + [0x1003] * 2 + [0x1005])
         mode = rng.choice([0] * 5 + [3])
         n = 1
     else:
+        kind = rng.choice([KIND_LE] * 9 + [KIND_ENH] * 4)
         psm = rng.choice([0x80] * 6 + [0x81] * 2 + [0x90])
         mode = 0
         n = rng.choice([1, 2, 2, 3, 5]) if kind == KIND_ENH else 1
@@ -613,50 +614,83 @@ def gen_open(rng, ends):
     return ['open', m, h, kind, psm, n, mode]
 
 
-def gen_foreign_frame(rng, M, h):
-    """a signalling frame from a foreign peer: mostly plausible (answers to what the manager sent,
-    requests with fresh or clashing CIDs), sometimes unsolicited"""
-    sent = [f for out in M.outs for f in out]
+def gen_foreign_frame(rng, w, m, h, ltype):
+    """a signalling frame from a foreign peer on a link of the given transport: answers to what
+    the manager sent (each request answered at most once), requests with fresh or clashing
+    CIDs, unsolicited or duplicate responses.  The peer follows these rules (the hypotheses of
+    the theorems, ev_ok in Proofs/ChanMgr.v): a CID it assigns in a successful response is not
+    one it already uses on that connection; it answers a disconnection request at most once and
+    does not send a disconnection request for a channel whose connection request it has not
+    answered."""
+    from bumble import l2cap
+    M = w.mgrs[m]
+    LS = l2cap.LeCreditBasedChannel.State
+    sent = [f for ev, out in zip(M.events, M.outs) for f in out
+            if (ev[0] != 'Recv' and ev[0] != 'Down') or True]
+    mine = [c for c in M.chans if M.conns.get(c.connection.handle) is c.connection and c.connection.handle == h]
+    used_peer = set(M.mgr.le_coc_channels.get(h, {}).keys())
+    fresh = [c for c in (0x40, 0x41, 0x42, 0x50, 0x51, 0x52, 0x53, 0x54, 0x7F) if c not in used_peer]
+    answered = w.__dict__.setdefault('answered', set())
     reqs = [f for f in sent if f[0] in ('LeReq', 'EnhReq', 'ConnReq', 'DiscReq', 'ConfReq')]
-    peer_cid = rng.choice([0x40, 0x41, 0x42, 0x50, 0x51, 0x7F])
     r = rng.below(100)
-    if r < 40 and reqs:
+    if r < 45 and reqs:
         q = rng.choice(reqs[-4:])
-        if q[0] == 'LeReq':
-            return ['LeRsp', q[1], peer_cid, rng.choice([0, 1, 5]), rng.choice([0] * 4 + [2, 4])]
-        if q[0] == 'EnhReq':
+        key = (m, q[0], q[1])
+        if q[0] == 'LeReq' and ltype == 'le':
+            return ['LeRsp', q[1], rng.choice(fresh), rng.choice([0, 1, 5]), rng.choice([0] * 4 + [2, 4])]
+        if q[0] == 'EnhReq' and ltype == 'le':
             res = rng.choice([0] * 4 + [2, 4])
             n = len(q[4])
-            return ['EnhRsp', q[1], rng.choice([0, 1, 5]), res,
-                    [0x60 + i for i in range(n)] if res == 0 else []]
-        if q[0] == 'ConnReq':
-            return ['ConnRsp', q[1], peer_cid, q[3], rng.choice([0] * 4 + [1, 2, 4])]
+            return ['EnhRsp', q[1], rng.choice([0, 1, 5]), res, fresh[:n] if res == 0 and len(fresh) >= n else []] \
+                if (res != 0 or len(fresh) >= n) else ['Reject', q[1]]
+        if q[0] == 'ConnReq' and ltype == 'cl':
+            return ['ConnRsp', q[1], rng.choice(fresh), q[3], rng.choice([0] * 4 + [1, 2, 4])]
         if q[0] == 'DiscReq':
+            if key in answered:
+                return ['Reject', q[1]]
+            answered.add(key)
             return ['DiscRsp', q[1], q[2], q[3]]
-        return ['ConfRsp', q[1], q[3] if False else rng.choice([0x40, 0x41]), rng.choice([0] * 5 + [2, 3])]
-    if r < 55:
-        return ['LeReq', rng.range(1, 255), rng.choice([0x80, 0x80, 0x81, 0x90]), peer_cid, rng.choice([0, 1, 4])]
-    if r < 65:
-        k = rng.choice([1, 2, 3])
-        base = rng.choice([0x40, 0x50, 0x60])
-        return ['EnhReq', rng.range(1, 255), rng.choice([0x80, 0x80, 0x90]), rng.choice([0, 2]),
-                [base + i for i in range(k)]]
-    if r < 75:
-        return ['ConnReq', rng.range(1, 255), rng.choice([0x1001, 0x1001, 0x1003, 0x1005]), peer_cid]
+        if q[0] == 'ConfReq' and ltype == 'cl':
+            return ['ConfRsp', q[1], rng.choice([0x40, 0x41]), rng.choice([0] * 5 + [1, 2, 3])]
+        return ['Reject', q[1]]
+    peer_cid = rng.choice([0x40, 0x41, 0x42, 0x50, 0x51, 0x7F])
     local = rng.choice([0x40, 0x41, 0x42, 0x43])
-    if r < 83:
-        return ['ConfReq', rng.range(1, 255), local, rng.choice([-1, -1, 0, 3]), rng.chance(1, 6)]
-    if r < 88:
-        return ['ConfRsp', rng.range(1, 255), local, rng.choice([0] * 5 + [2, 3])]
-    if r < 94:
-        return ['DiscReq', rng.range(1, 255), local, peer_cid]
-    if r < 97:
-        return ['DiscRsp', rng.range(1, 255), peer_cid, local]
-    return ['Credit', rng.range(1, 255), peer_cid, rng.choice([1, 3, 100])]
+    if r < 80:
+        if ltype == 'le':
+            if rng.chance(3, 5):
+                return ['LeReq', rng.range(1, 255), rng.choice([0x80, 0x80, 0x81, 0x90]), peer_cid, rng.choice([0, 1, 4])]
+            k = rng.choice([1, 2, 3])
+            base = rng.choice([0x40, 0x50, 0x60])
+            return ['EnhReq', rng.range(1, 255), rng.choice([0x80, 0x80, 0x90]), rng.choice([0, 2]),
+                    [base + i for i in range(k)]]
+        rr = rng.below(10)
+        if rr < 5:
+            return ['ConnReq', rng.range(1, 255), rng.choice([0x1001, 0x1001, 0x1003, 0x1005]), peer_cid]
+        if rr < 8:
+            return ['ConfReq', rng.range(1, 255), local, rng.choice([-1, -1, 0, 3]), rng.chance(1, 6)]
+        return ['ConfRsp', rng.range(1, 255), local, rng.choice([0] * 5 + [1, 2, 3])]
+    if r < 92:
+        # disconnection request for one of the manager's established channels (or a stray CID)
+        est = [c for c in mine if getattr(c, 'state', None) is not None and
+               not (hasattr(c, 'drained') and c.state in (LS.INIT, LS.CONNECTING))]
+        if est and rng.chance(4, 5):
+            c = rng.choice(est)
+            return ['DiscReq', rng.range(1, 255), c.source_cid, c.destination_cid]
+        return ['DiscReq', rng.range(1, 255), 0x70, peer_cid]
+    if ltype == 'le':
+        return ['Credit', rng.range(1, 255), peer_cid, rng.choice([1, 3, 100])]
+    return ['Reject', rng.range(1, 255)]
 
 
-async def gen_and_run(rng, topo, length, allow_abort=True, allow_cancel=True, down_weight=8):
-    """generate a history online (choices depend only on counts visible in the world) and run it;
+def _abortable(c):
+    """abort() while the connection request is still unanswered is outside the modelled
+    operations (see docs/C09.md, open questions)"""
+    from bumble import l2cap
+    return not (hasattr(c, 'drained') and c.state == l2cap.LeCreditBasedChannel.State.CONNECTING)
+
+
+async def gen_and_run(rng, topo, ltypes, length, allow_abort=True, down_weight=8):
+    """generate a history online (choices depend only on what is visible in the world) and run it;
     returns (world, ops).  The op list alone replays the run."""
     cfgs, links = TOPOLOGIES[topo]
     w = World(cfgs, links)
@@ -668,45 +702,43 @@ async def gen_and_run(rng, topo, length, allow_abort=True, allow_cancel=True, do
         op = None
         busy = [k for k in sorted(w.queues) if w.queues[k]]
         if r < 22:
-            op = gen_open(rng, ends)
-        elif r < 50:
+            op = gen_open(rng, ends, ltypes)
+        elif r < 52:
             if foreign:
-                m, h, _l = rng.choice(ends)
-                op = ['inject', m, h, gen_foreign_frame(rng, w.mgrs[m], h)]
+                m, h, l = rng.choice(ends)
+                op = ['inject', m, h, gen_foreign_frame(rng, w, m, h, ltypes[l])]
             elif busy:
                 op = ['deliver', *rng.choice(busy)]
             else:
-                op = gen_open(rng, ends)
-        elif r < 56:
+                op = gen_open(rng, ends, ltypes)
+        elif r < 58:
             op = ['flush']
-        elif r < 72:
+        elif r < 74:
             m = rng.choice(ends)[0]
             n = len(w.mgrs[m].chans)
             if n:
                 op = ['close', m, rng.below(n)]
-        elif r < 76:
+        elif r < 78:
             m = rng.choice(ends)[0]
             n = len(w.mgrs[m].chans)
             if n and allow_abort:
-                op = ['abort', m, rng.below(n)]
-        elif r < 84:
+                u = rng.below(n)
+                if _abortable(w.mgrs[m].chans[u]):
+                    op = ['abort', m, u]
+        elif r < 86:
             m = rng.choice(ends)[0]
             n = len(w.mgrs[m].chans)
             if n:
                 op = ['write', m, rng.below(n), rng.choice([1, 2, 4])]
-        elif r < 87:
+        elif r < 89:
             m = rng.choice(ends)[0]
             n = len(w.mgrs[m].chans)
             if n:
                 op = ['grant', m, rng.below(n), rng.choice([1, 2, 50])]
-        elif r < 87 + down_weight:
+        elif r < 89 + down_weight:
             op = ['down', rng.below(len(links))]
-        elif allow_cancel:
-            m = rng.choice(ends)[0]
-            if w.nw[m]:
-                op = ['cancel', m, rng.below(w.nw[m])]
         if op is None:
-            op = ['flush'] if not foreign else gen_open(rng, ends)
+            op = ['flush'] if not foreign else gen_open(rng, ends, ltypes)
         ops.append(op)
         await w.apply(op)
         w.check(op[0])
@@ -727,25 +759,28 @@ def audit_eligible(topo, ops):
     return topo != 'foreign' and not any(o[0] in ('abort', 'cancel', 'inject') for o in ops)
 
 
-async def audit(w, topo, ops):
+async def audit(w, topo, ltypes):
     """End of a history in which both ends of every link are real managers and nobody aborted
-    unilaterally: (1) everything in flight is delivered, (2) a new channel of every kind is opened in
-    both directions and must succeed (identifiers are reusable), (3) every open channel is closed and
-    every table must then be empty and every awaited call finished."""
+    unilaterally: (1) everything in flight is delivered, (2) new channels of every kind of the
+    link's transport are opened in both directions and must succeed (identifiers are reusable),
+    (3) every open channel is closed and every table must then be empty and every awaited call
+    finished.  Returns the ops it applied."""
     from bumble import l2cap
     cfgs, links = TOPOLOGIES[topo]
     extra = [['flush']]
     probes = []
     for l, (mi, hi, mj, hj) in enumerate(links):
-        extra += [['open', mi, hi, KIND_LE, 0x80, 1, 0], ['open', mj, hj, KIND_CL, 0x1001, 1, 0],
-                  ['open', mi, hi, KIND_ENH, 0x80, 2, 0], ['open', mj, hj, KIND_LE, 0x80, 1, 0]]
+        if ltypes[l] == 'le':
+            extra += [['open', mi, hi, KIND_LE, 0x80, 1, 0], ['open', mi, hi, KIND_ENH, 0x80, 2, 0],
+                      ['open', mj, hj, KIND_LE, 0x80, 1, 0]]
+        else:
+            extra += [['open', mi, hi, KIND_CL, 0x1001, 1, 0], ['open', mj, hj, KIND_CL, 0x1001, 1, 0]]
+    extra.append(['flush'])
     for op in extra:
         if op[0] == 'open':
             probes.append((op[1], w.nw[op[1]], op))
         await w.apply(op)
         w.check('audit-' + op[0])
-    await w.apply(['flush'])
-    extra.append(['flush'])
     for m, wid, op in probes:
         o = _outcome(w.mgrs[m].tasks[wid])
         if o != OUTCOME_RESULT:
@@ -768,8 +803,359 @@ async def audit(w, topo, ops):
         o = M.obs()
         for t in ('channels', 'le', 'reqs', 'pend'):
             if o[t]:
-                w.violations.append((f'leak-{t}:audit', f'mgr{mi}: {t} = {o[t]} after every channel was closed'))
+                w.violations.append((f'leak-{t}', f'mgr{mi}: {t} = {o[t]} after every channel was closed'))
         for wid, oc in o['waiters']:
             if oc == OUTCOME_PENDING:
-                w.violations.append(('waiter-pending:audit', f'mgr{mi}: awaited call #{wid} still pending after every channel was closed'))
+                w.violations.append(('waiter-pending', f'mgr{mi}: awaited call #{wid} still pending after every channel was closed'))
     return extra
+
+
+# ----------------------------------------------------------------------------- translator
+def regen(ctx):
+    from bumble import l2cap
+    from translate import c09_tables
+    text, consts, tables, pops = c09_tables.generate(l2cap)
+    ctx.write_gen('C09Tables', text)
+    ctx.extra['c09_constants'] = consts
+    ctx.extra['c09_per_connection_tables'] = tables
+    ctx.extra['c09_disconnection_pops'] = pops
+
+
+# ----------------------------------------------------------------------------- model side
+_FRAME_CTOR = {'ConnReq': 'FConnReq', 'ConnRsp': 'FConnRsp', 'ConfReq': 'FConfReq', 'ConfRsp': 'FConfRsp',
+               'DiscReq': 'FDiscReq', 'DiscRsp': 'FDiscRsp', 'LeReq': 'FLeReq', 'LeRsp': 'FLeRsp',
+               'EnhReq': 'FEnhReq', 'EnhRsp': 'FEnhRsp', 'Credit': 'FCredit', 'Reject': 'FReject', 'Data': 'FData'}
+_CTOR_FRAME = {v: k for k, v in _FRAME_CTOR.items()}
+
+
+def _cv(x):
+    if isinstance(x, bool):
+        return 'true' if x else 'false'
+    if isinstance(x, int):
+        return coq_z(x)
+    if isinstance(x, list):
+        return '[' + '; '.join(_cv(y) for y in x) + ']'
+    raise TypeError(x)
+
+
+def frame_coq(a):
+    return '(' + _FRAME_CTOR[a[0]] + ''.join(' ' + _cv(x) for x in a[1:]) + ')'
+
+
+def event_coq(e):
+    k = e[0]
+    if k == 'Open':
+        _, _w, h, kind, psm, n, mode = e
+        return f'EOpen {coq_z(h)} {kind} {coq_z(psm)} {coq_z(n)} {coq_z(mode)} {CLIENT_CREDITS}'
+    if k == 'Close':
+        return f'EClose {e[2]}'
+    if k == 'Abort':
+        return f'EAbort {e[1]}'
+    if k == 'Write':
+        return f'EWrite {e[1]} {e[2]}'
+    if k == 'Grant':
+        return f'EGrant {e[1]} {e[2]}'
+    if k == 'Recv':
+        return f'ERecv {coq_z(e[1])} {frame_coq(e[2])}'
+    if k == 'Down':
+        return f'EDown {coq_z(e[1])}'
+    raise ValueError(e)
+
+
+def model_expr(cfg, events):
+    lesrv = '[' + '; '.join(f'({p}, {SERVER_CREDITS})' for p in cfg.get('le', [])) + ']'
+    clsrv = '[' + '; '.join(f'({p}, {mo})' for p, mo in cfg.get('cl', [])) + ']'
+    evs = '[' + '; '.join(event_coq(e) for e in events) + ']'
+    return (f"let m0 := m_init {lesrv} {clsrv} in let evs := {evs} in "
+            f"let '(m, outs) := run m0 evs in (outs, m_obs m, evs_ok m0 evs)")
+
+
+def _frame_from_model(f):
+    if isinstance(f, str):
+        f = (f,)
+    return [_CTOR_FRAME[f[0]]] + [list(x) if isinstance(x, (list, tuple)) else x for x in f[1:]]
+
+
+def model_result_canon(res):
+    outs, obs, ok = res
+    outs = [[_frame_from_model(f) for f in out] for out in outs]
+    chs, le, reqs, pend, ids, chans, ws = obs
+    canon = {
+        'channels': sorted(list(x) for x in chs),
+        'le': sorted(list(x) for x in le),
+        'reqs': sorted(list(x) for x in reqs),
+        'pend': sorted([x[0], x[1], list(x[2])] for x in pend),
+        'ids': sorted(list(x) for x in ids),
+        'chans': [list(x) for x in chans],
+        'waiters': [[i, o] for i, o in enumerate(ws)],
+    }
+    return outs, canon, ok
+
+
+def impl_supported(events):
+    """events the model has a constructor for"""
+    for e in events:
+        if e[0] == 'Cancel':
+            return False
+        if e[0] == 'Recv' and e[2][0] == 'Other':
+            return False
+    return True
+
+
+# ----------------------------------------------------------------------------- one case
+class Case:
+    def __init__(self, topo, ltypes, ops, tag, audited=False):
+        self.topo, self.ltypes, self.ops, self.tag, self.audited = topo, ltypes, ops, tag, audited
+        self.mgr_results = []     # per manager: (cfg, events, outs, obs, escaped)
+        self.violations = []
+
+    def replay_obj(self):
+        return {'topo': self.topo, 'ltypes': self.ltypes, 'ops': self.ops, 'audit': self.audited}
+
+
+def _snapshot(case, w):
+    case.violations = list(w.violations)
+    case.mgr_results = [(M.cfg, list(M.events), [list(o) for o in M.outs], M.obs(), list(M.escaped)) for M in w.mgrs]
+    case.skipped = w.skipped
+    case.cooperative = w.cooperative
+
+
+def run_generated(rng, topo, ltypes, length, tag, **kw):
+    async def go():
+        w, ops = await gen_and_run(rng, topo, ltypes, length, **kw)
+        audited = audit_eligible(topo, ops)
+        if audited:
+            await audit(w, topo, ltypes)
+        case = Case(topo, ltypes, ops, tag, audited)
+        _snapshot(case, w)
+        return case
+    return asyncio.run(go())
+
+
+def run_fixed(topo, ltypes, ops, tag, with_audit=False):
+    async def go():
+        w = await run_ops(topo, ops)
+        audited = with_audit and audit_eligible(topo, ops)
+        if audited:
+            await audit(w, topo, ltypes)
+        case = Case(topo, ltypes, list(ops), tag, audited)
+        _snapshot(case, w)
+        return case
+    return asyncio.run(go())
+
+
+# ----------------------------------------------------------------------------- campaign
+CORPUS = [
+    # D09a: close an LE CoC then open again on the same connection
+    ('D09a', 'pair', ['le'], [['open', 0, 1, 0, 0x80, 1, 0], ['flush'], ['close', 0, 0], ['flush'],
+                              ['open', 0, 1, 0, 0x80, 1, 0], ['flush']]),
+    # D09b: one central, two peripherals, first request on both links uses identifier 1
+    ('D09b', 'star', ['le', 'le'], [['open', 0, 1, 0, 0x80, 1, 0], ['open', 0, 2, 0, 0x80, 1, 0], ['flush']]),
+    # D09b': link lost while the request is pending, then the same identifier on the new link
+    ('D09b-linkdown', 'pair', ['le'], [['open', 0, 1, 0, 0x80, 1, 0], ['down', 0],
+                                       ['open', 0, 1, 0, 0x80, 1, 0], ['flush']]),
+    # D09c: classic channel, link lost in WAIT_DISCONNECT
+    ('D09c', 'pair', ['cl'], [['open', 0, 1, 2, 0x1001, 1, 0], ['flush'], ['close', 0, 0], ['down', 0]]),
+    # D09c': abort() of an open classic channel leaves it registered
+    ('D09c-abort', 'pair', ['cl'], [['open', 0, 1, 2, 0x1001, 1, 0], ['flush'], ['abort', 0, 0]]),
+    # D09d: output pending, link lost / channel closed
+    ('D09d', 'pair', ['le'], [['open', 0, 1, 0, 0x80, 1, 0], ['flush'], ['write', 0, 0, 4], ['down', 0]]),
+    ('D09d-close', 'pair', ['le'], [['open', 0, 1, 0, 0x80, 1, 0], ['flush'], ['write', 0, 0, 4],
+                                    ['close', 0, 0], ['flush']]),
+    # D09e: classic disconnection collision
+    ('D09e', 'pair', ['cl'], [['open', 0, 1, 2, 0x1001, 1, 0], ['flush'], ['close', 0, 0], ['close', 1, 0], ['flush']]),
+    # D07 seen from the tables: enhanced server channel, peer CIDs differ from ours, close
+    ('D07-tables', 'foreign', ['le', 'le'], [['inject', 0, 1, ['EnhReq', 7, 0x80, 2, [0x50, 0x51]]], ['close', 0, 0],
+                                             ['inject', 0, 1, ['DiscRsp', 1, 0x50, 0x40]]]),
+]
+
+
+def _load_corpus():
+    d = os.path.join(os.path.dirname(os.path.dirname(os.path.dirname(os.path.abspath(__file__)))), 'corpus', 'C09')
+    out = []
+    if os.path.isdir(d):
+        for fn in sorted(os.listdir(d)):
+            if fn.endswith('.json'):
+                with open(os.path.join(d, fn)) as f:
+                    o = json.load(f)
+                out.append((fn[:-5], o['topo'], o['ltypes'], o['ops']))
+    return out
+
+
+def _sig(check):
+    return check
+
+
+def evaluate_cases(ctx, cases):
+    """model vs implementation for every manager of every case + oracle verdicts"""
+    exprs, index = [], []
+    for ci, case in enumerate(cases):
+        for mi, (cfg, events, outs, obs, escaped) in enumerate(case.mgr_results):
+            if events and impl_supported(events):
+                exprs.append(model_expr(cfg, events))
+                index.append((ci, mi))
+    results = ctx.coq_eval(['Model.ChanMgr'], exprs, shard=150)
+    in_hyp = 0
+    for (ci, mi), res in zip(index, results):
+        case = cases[ci]
+        cfg, events, outs, obs, escaped = case.mgr_results[mi]
+        m_outs, m_obs, ok = model_result_canon(res)
+        if ok:
+            in_hyp += 1
+        ctx.count('managers.hypotheses_hold' if ok else 'managers.outside_hypotheses')
+        i_obs = dict(obs)
+        if not ok:
+            continue    # outside the modelled behaviour (recorded in the distribution)
+        if m_outs != outs or m_obs != i_obs:
+            diff = [k for k in m_obs if m_obs[k] != i_obs.get(k)]
+            if m_outs != outs:
+                first = next((i for i, (a, b) in enumerate(zip(m_outs, outs)) if a != b), min(len(m_outs), len(outs)))
+                diff.append(f'frames emitted at event {first}: {events[first] if first < len(events) else None}')
+            ctx.disagree(f'ChannelManager (manager {mi} of {case.topo}): ' + ', '.join(diff),
+                         {'case': case.replay_obj(), 'manager': mi, 'events': events},
+                         {'outs': m_outs, **{k: m_obs[k] for k in m_obs if m_obs[k] != i_obs.get(k)}},
+                         {'outs': outs, **{k: i_obs[k] for k in m_obs if m_obs[k] != i_obs.get(k)}})
+    for ci, case in enumerate(cases):
+        nev = sum(len(r[1]) for r in case.mgr_results)
+        closes = sum(1 for o in case.ops if o[0] in ('close', 'down', 'abort'))
+        opens = sum(1 for o in case.ops if o[0] == 'open')
+        ctx.case((case.topo, case.ltypes, case.ops), opens >= 1 and closes >= 1,
+                 {'topology': case.topo, 'links': case.ltypes, 'ops': case.ops[:12]} if ci % 97 == 3 else None)
+        ctx.count('histories.' + case.topo)
+        ctx.count('histories.audited' if case.audited else 'histories.not_audited')
+        ctx.count('events', nev)
+        for o in case.ops:
+            ctx.count('op.' + o[0])
+            if o[0] == 'open':
+                ctx.count('open.' + ['le', 'enhanced', 'classic'][o[3]])
+            if o[0] == 'inject':
+                ctx.count('inject.' + o[3][0])
+        for cfg, events, outs, obs, escaped in case.mgr_results:
+            for e in escaped:
+                ctx.count('handler_exception.' + e[1])
+        seen = set()
+        for check, what in case.violations:
+            if check in seen:
+                continue
+            seen.add(check)
+            ctx.violation(_sig(check), f'{case.tag}: {what}', case.replay_obj())
+    return in_hyp
+
+
+def alloc_cases(ctx):
+    """direct tie of the CID allocators: the real static/class methods vs the model"""
+    from bumble import l2cap
+    rng = ctx.rng
+    cases = []
+    lo, hi = l2cap.L2CAP_LE_U_DYNAMIC_CID_RANGE_START, l2cap.L2CAP_LE_U_DYNAMIC_CID_RANGE_END
+    full = list(range(lo, hi + 1))
+    for _ in range(ctx.n(150, 1500)):
+        r = rng.below(6)
+        if r == 0:
+            used = rng.shuffle(full)[:rng.range(hi - lo - 3, hi - lo + 1)]
+        elif r == 1:
+            used = full[:rng.range(0, len(full))]
+        else:
+            used = rng.shuffle(list(range(lo - 2, lo + 12)))[:rng.below(12)]
+        cases.append((used, rng.choice([0, 1, 1, 2, 3, 5, 64, 65])))
+    exprs = [f'(find_free_le_n {_cv(u)} {c}%nat, find_free_le {_cv(u)}, find_free_bredr {_cv(u)})' for u, c in cases]
+    res = ctx.coq_eval(['Model.ChanMgr'], exprs)
+    for (used, count), (mn, m1, mb) in zip(cases, res):
+        impl_n = l2cap.ChannelManager.find_free_le_cids(used, count)
+        impl_1 = l2cap.ChannelManager.find_free_le_cid(used)
+        try:
+            impl_b = l2cap.ChannelManager.find_free_br_edr_cid(used)
+        except Exception:
+            impl_b = None
+        m1 = m1[1] if isinstance(m1, tuple) else None
+        mb = mb[1] if isinstance(mb, tuple) else None
+        ctx.case(('alloc', used, count), len(used) > 0, None)
+        ctx.count('allocator.cases')
+        if [list(mn), m1, mb] != [list(impl_n), impl_1, impl_b]:
+            ctx.disagree('CID allocators', {'used': used, 'count': count}, [list(mn), m1, mb], [impl_n, impl_1, impl_b])
+        free = [c for c in full if c not in used]
+        want = free[:count] if 0 < count <= len(free) else []
+        if list(impl_n) != want:
+            ctx.violation('allocator:le', f'find_free_le_cids({used}, {count}) = {impl_n}, the smallest free CIDs are {want}',
+                          {'kind': 'alloc', 'used': used, 'count': count})
+
+
+def gen_campaign(ctx, n):
+    rng = ctx.rng
+    cases = []
+    for i in range(n):
+        topo = rng.choice(['pair', 'pair', 'pair', 'star', 'star', 'foreign', 'foreign'])
+        nl = len(TOPOLOGIES[topo][1])
+        ltypes = [rng.choice(['le', 'le', 'cl']) for _ in range(nl)]
+        length = rng.choice([4, 8, 8, 16, 16, 30])
+        kw = dict(allow_abort=rng.chance(1, 3), down_weight=rng.choice([4, 8, 11]))
+        cases.append(run_generated(rng, topo, ltypes, length, f'random history #{i}', **kw))
+    return cases
+
+
+def run(ctx):
+    ctx.rule = ('histories of open (LE credit-based / enhanced x1-5 / classic, served and unserved PSMs, matching '
+                'and mismatching modes), close, abort, write, credit grant, single-frame delivery, flush and link '
+                'loss over three topologies of REAL ChannelManagers on a host shim: pair (one link), star (one '
+                'central, two peripherals), foreign (the harness plays the peer and sends arbitrary signalling '
+                'frames); every history that stays cooperative ends with an audit (reopen every kind in both '
+                'directions, close everything, tables must be empty). Each manager\'s event sequence is replayed '
+                'in the Coq model and frames, tables, channel objects and waiter outcomes are compared. '
+                'A history is non-trivial when it opens and closes/aborts/cuts at least once; distinct by content. '
+                'Plus direct allocator cases (real find_free_* vs model).')
+    ctx.assumptions += [
+        'one event = the synchronous handler plus the coroutine continuations it wakes (the event loop is run '
+        'to idle after every event); an event arriving between a response and the continuation of the awaiting '
+        'coroutine is not modelled',
+        'the peer follows ev_ok (Model/ChanMgr.v): fresh CIDs in successful responses, no disconnection '
+        'request for an unanswered connection request, a classic disconnection response only answers a request, '
+        'classic and LE channels do not share a connection',
+        'cancellation of the awaiting task by the caller (asyncio cancel / wait_for timeout) and abort() of a '
+        'channel whose connection request is unanswered are not modelled operations',
+        'timers do not exist on the modelled paths',
+    ]
+    ctx.trusted += ['Model/ChanMgr.v is a hand-written reading of bumble/l2cap.py (ChannelManager and the '
+                    'connection/disconnection paths of the channel classes), tied to the code by differential '
+                    'execution and by the regenerated Gen/C09Tables.v (CID ranges, per-connection tables, cleanup)',
+                    'the host shim of tools/harness/c09.py (ShimHost/ShimConnection) stands for bumble.host.Host and '
+                    'bumble.device.Connection; the order of the two disconnection callbacks is the one of Device']
+    cases = []
+    for tag, topo, ltypes, ops in CORPUS + _load_corpus():
+        cases.append(run_fixed(topo, ltypes, ops, 'corpus ' + tag, with_audit=True))
+    cases += gen_campaign(ctx, ctx.n(450, 9000))
+    if not ctx.quick():
+        cases += exhaustive_cases(ctx)
+    evaluate_cases(ctx, cases)
+    alloc_cases(ctx)
+
+
+def exhaustive_cases(ctx):
+    return []
+
+
+def search(ctx):
+    cases = gen_campaign(ctx, 600)
+    for case in cases:
+        seen = set()
+        for check, what in case.violations:
+            if check not in seen:
+                seen.add(check)
+                ctx.violation(_sig(check), f'{case.tag}: {what}', case.replay_obj())
+
+
+def replay(ctx, obj):
+    r = obj['replay']
+    if r.get('kind') == 'alloc':
+        from bumble import l2cap
+        print('find_free_le_cids:', l2cap.ChannelManager.find_free_le_cids(r['used'], r['count']))
+        return 0
+    case = run_fixed(r['topo'], r['ltypes'], r['ops'], 'replay', with_audit=r.get('audit', False))
+    for mi, (cfg, events, outs, obs, escaped) in enumerate(case.mgr_results):
+        print(f'manager {mi}: events={events}')
+        print(f'           tables={ {k: obs[k] for k in ("channels", "le", "reqs", "pend")} } waiters={obs["waiters"]}')
+    if case.violations:
+        for check, what in case.violations:
+            print('oracle FAILS:', check, '-', what)
+    else:
+        print('oracle: holds')
+    return 0
